@@ -173,25 +173,37 @@ inductive Verdict where
 def refTarget (r : Registry) (G : Graph) (m : Mod) (arg : String) : Option Vertex :=
   (names r m arg).filter (· ∈ G.verts)
 
-/-- The base argument that decides what an identityref leaf or leaf-list `l` at the top level of
-`m` refers to: of the identityref type written on it, of the identityref member of its union, or
-of the identityref type of the typedef of `m` it names.  `none`: not an identityref node;
-`some none`: an identityref without base statement. -/
-def refBase (m : Mod) (l : Stmt) : Option (Option String) :=
-  (l.one? "type").bind fun ty =>
-    let decider : Option Stmt :=
-      if ty.arg == "identityref" then some ty
-      else if ty.arg == "union" then (ty.all "type").find? (·.arg == "identityref")
-      else ((m.stmt.all "typedef").find? (·.arg == ty.arg)).bind fun td =>
-        (td.one? "type").filter (·.arg == "identityref")
-    decider.map (·.argOf? "base")
+/-- The base arguments of the identityref types a type statement written in `m` stands for: its own,
+those of its union members, those behind the typedef of `m` it names (chains bounded by `fuel`).
+`none` entries: an identityref without base statement. -/
+def basesOfType (m : Mod) : Nat → Stmt → List (Option String)
+  | 0, _ => []
+  | fuel + 1, ty =>
+    if ty.arg == "identityref" then [ty.argOf? "base"]
+    else if ty.arg == "union" then (ty.all "type").flatMap (basesOfType m fuel)
+    else
+      match ((m.stmt.all "typedef").find? (·.arg == ty.arg)).bind (·.one? "type") with
+      | some tt => basesOfType m fuel tt
+      | none => []
 
-/-- The identityref leaves and leaf-lists at the top level of the loaded (sub)modules:
-(declaring (sub)module, node name, base argument). -/
+/-- The loaded modules and submodules (those in the tables). -/
+def loadedRoots (r : Registry) : List Mod :=
+  r.mods.filter fun m => r.modules.any (·.2 == m.seq) || r.subModules.any (·.2 == m.seq)
+
+/-- The identityref types at the top-level nodes (own leaves and leaf-lists, and those of a used
+grouping of the same root) of the loaded (sub)modules: (declaring (sub)module, node name, base
+argument), one per identityref member. -/
 def refs (r : Registry) : List (Mod × String × Option String) :=
-  r.mods.flatMap fun m =>
-    (m.stmt.all "leaf" ++ m.stmt.all "leaf-list").filterMap fun l =>
-      (refBase m l).map fun b => (m, l.arg, b)
+  (loadedRoots r).flatMap fun m =>
+    let nodes := m.stmt.all "leaf" ++ m.stmt.all "leaf-list" ++
+      ((m.stmt.all "uses").flatMap fun u =>
+        match (m.stmt.all "grouping").find? (·.arg == u.arg) with
+        | some g => g.all "leaf" ++ g.all "leaf-list"
+        | none => [])
+    nodes.flatMap fun l =>
+      match l.one? "type" with
+      | some ty => (basesOfType m 8 ty).map fun b => (m, l.arg, b)
+      | none => []
 
 /-- Judge an observed result.  `vals`: (vertex, reported list) for the identity statements of the
 schema; `refs`: (identity the base statement names, identity the resolved type points at) for the
